@@ -14,6 +14,8 @@ returns `Except Err _` exactly where the code raises.  Import-free.
 import SkVerif.Model.Range
 namespace SkVerif.C14
 
+/-- panel with values of type `α` (`Rat`; `Option Rat` where NaN can occur, e.g. a NaN fill value) -/
+abbrev PanelOf (α : Type) := List (List (List α))
 abbrev Cell := List Rat
 abbrev Inst := List Cell
 abbrev Panel := List Inst
@@ -28,7 +30,7 @@ cells, 3-D array) makes no difference to any transformer modelled here (since th
 the container, the model is the same. -/
 
 /-- `check_X`: at least one instance, at least one column (`X.shape`). -/
-def checkX (X : Panel) : Except Err Unit :=
+def checkX {α : Type} (X : PanelOf α) : Except Err Unit :=
   match X with
   | [] => .error .value
   | inst :: _ => if inst.length = 0 then .error .value else .ok ()
@@ -44,32 +46,34 @@ def listMin : List Nat → Nat
   | a :: l => l.foldl min a
 
 /-- `_get_max_length(arr)`: max over instances of max over the cells of the instance -/
-def maxLength (X : Panel) : Nat := listMax (X.map (fun inst => listMax (inst.map List.length)))
+def maxLength {α : Type} (X : PanelOf α) : Nat := listMax (X.map (fun inst => listMax (inst.map List.length)))
 
 /-- `TruncationTransformer.get_min_length(arr)` -/
-def minLength (X : Panel) : Nat := listMin (X.map (fun inst => listMin (inst.map List.length)))
+def minLength {α : Type} (X : PanelOf α) : Nat := listMin (X.map (fun inst => listMin (inst.map List.length)))
 
 /-! ### PaddingTransformer -/
 
 /-- `fit`: `pad_length_` -/
-def padFit (padLength : Option Int) (X : Panel) : Except Err Int := do
+def padFit {α : Type} (padLength : Option Int) (X : PanelOf α) : Except Err Int := do
   checkX X
   match padLength with
   | none => pure (maxLength X : Int)
   | some p => pure p
 
-/-- `_create_pad`: `out = np.full(L, fill); out[:len(series)] = np.asarray(series)` -/
-def createPad (L : Nat) (fill : Rat) (c : Cell) : Cell :=
+/-- `_create_pad`: `out = np.full(L, fill, float); out[:len(series)] = np.asarray(series)`; the values
+are only moved, so the model is generic in the value type (the driver uses `Option Rat`: a NaN fill value
+and NaN observations are values like any other; integer cells are cast to float, the same numbers) -/
+def createPad {α : Type} (L : Nat) (fill : α) (c : List α) : List α :=
   c ++ (List.replicate L fill).drop c.length
 
 /-- `transform` given the fitted `pad_length_` -/
-def padTransform (L : Int) (fill : Rat) (X : Panel) : Except Err Panel := do
+def padTransform {α : Type} (L : Int) (fill : α) (X : PanelOf α) : Except Err (PanelOf α) := do
   checkX X
   if (maxLength X : Int) > L then .error .value
   else pure (X.map (fun inst => inst.map (createPad L.toNat fill)))
 
 /-- `PaddingTransformer(pad_length, fill_value).fit(Xfit).transform(X)` -/
-def pad (padLength : Option Int) (fill : Rat) (Xfit X : Panel) : Except Err Panel := do
+def pad {α : Type} (padLength : Option Int) (fill : α) (Xfit X : PanelOf α) : Except Err (PanelOf α) := do
   let L ← padFit padLength Xfit
   padTransform L fill X
 
